@@ -33,7 +33,7 @@ REQUIRED_REACH = ['validated:plain', 'validated:stream', 'validated:rendered', '
                   'validated:304', 'validated:redirect', 'validated:404', 'validated:405', 'validated:500', 'validated:debug-500',
                   'validated:debug-404', 'validated:meta', 'validated:gzip', 'validated:cache', 'validated:head', 'validated:post',
                   'files-opened', 'files-closed-after-close', 'wrapper-stacks:depth>=2', 'wrapper-stacks:embedded',
-                  'wrapper-stacks:no-routes', 'wrapper-stacks:siblings', 'wrapper-stacks:siblings-share-unique-type', 'reroute:raised', 'reroute:endpoint', 'reroute:relayed-verbatim']
+                  'wrapper-stacks:no-routes', 'wrapper-stacks:siblings', 'wrapper-stacks:siblings-share-unique-type', 'reroute:raised', 'reroute:endpoint', 'reroute:relayed-verbatim', 'reroute:mode-rewrite', 'wrapper-stacks:subclass-type']
 NSHARDS = 8
 
 
@@ -261,11 +261,14 @@ def judge_exchange(sh, sc, kind, method, path, query, headers, body, debug, reco
 
 
 # ---- wrapper order ----------------------------------------------------------------------------------------------
-def make_wrapper_mw(label, type_name, unique, types):
+def make_wrapper_mw(label, type_name, unique, types, base=None):
     from clastic import Middleware
     cls = types.get(type_name)
     if cls is None:
-        cls = types[type_name] = type(str(type_name), (Middleware,), {'unique': unique})
+        parent = Middleware
+        if base:
+            parent = types.get(base) or types.setdefault(base, type(str(base), (Middleware,), {'unique': True}))
+        cls = types[type_name] = type(str(type_name), (parent,), {'unique': unique})
     inst = cls()
     inst.label = label
 
@@ -286,6 +289,11 @@ def wrapper_case(rng):
     for i in range(n):
         spec = {'label': 'w%d' % i, 'type': 'W%d' % (rng.randrange(types_n) if rng.chance(0.3) else i), 'unique': rng.chance(0.8)}
         specs.append(spec)
+    if len(specs) >= 2 and rng.chance(0.35):
+        # a type deriving from an earlier one: a different type, whose own wrapper must be applied as well
+        i = rng.randrange(1, len(specs))
+        if specs[i]['type'] != specs[0]['type'] and specs[i]['type'] == 'W%d' % i:
+            specs[i]['base'] = specs[0]['type']
     shape = rng.pick(['flat', 'flat', 'embedded', 'embedded', 'no-routes', 'route-level', 'siblings', 'siblings'])
     place = {}
     for s in specs:
@@ -319,7 +327,9 @@ def judge_wrappers(sh, case):
     inner = dedupe_ok([s for s in specs if case['place'][s['label']] == 'inner'])
     inner2 = dedupe_ok([s for s in specs if case['place'][s['label']] == 'inner2'])
     routel = dedupe_ok([s for s in specs if case['place'][s['label']] == 'route'])
-    mk = lambda lst: [make_wrapper_mw(s['label'], s['type'], s['unique'], types) for s in lst]
+    mk = lambda lst: [make_wrapper_mw(s['label'], s['type'], s['unique'], types, s.get('base')) for s in lst]
+    if any(s.get('base') for s in specs):
+        sh.hit('wrapper-stacks:subclass-type')
     ep = lambda: Response('ok')
     shape = case['shape']
     try:
@@ -449,23 +459,35 @@ def judge_reroute(sh, rng):
         seen['snapshot'] = dict(environ)
         start_response(status, list(hdrs))
         return iter(list(chunks))
+    mode = rng.pick(['redirect', 'redirect', 'rewrite', 'rewrite', 'strict'])
+    branch = rng.chance(0.5)
+    pattern = '/go/<x*>/' if branch else '/go/<x*>'
     if how == 'raised':
         def ep():
             raise RerouteWSGI(target)
-        app = Application([Route('/go/<x*>', lambda x: ep())])
+        app = Application([Route(pattern, lambda x: ep())], slash_mode=mode)
     elif how == 'endpoint':
-        app = Application([Route('/go/<x*>', RerouteWSGI(target))])
+        app = Application([Route(pattern, RerouteWSGI(target))], slash_mode=mode)
     else:
         class M(Middleware):
             def request(self, next):
                 raise RerouteWSGI(target)
-        app = Application([Route('/go/<x*>', lambda x: Response('never'))], middlewares=[M()])
+        app = Application([Route(pattern, lambda x: Response('never'))], middlewares=[M()], slash_mode=mode)
     method = rng.pick(['GET', 'POST', 'HEAD', 'PUT'])
-    env = probe.make_environ(method, '/go/a/b', 'k=v', {'X-Orig': 'o', 'Cookie': 'c=1'}, b'payload' if method in ('POST', 'PUT') else b'')
+    # canonical and non-canonical spellings; a slash redirect (redirect mode, branch, non-canonical) and a strict miss
+    # legitimately never reach the target
+    path = rng.pick(['/go/a/b', '/go/a/b/', '/go//a/b', '/go/a//b//']) if mode != 'strict' else ('/go/a/b/' if branch else '/go/a/b')
+    canonical = path == ('/go/a/b/' if branch else '/go/a/b')
+    reaches = canonical or mode == 'rewrite' or (mode == 'redirect' and not branch)
+    env = probe.make_environ(method, path, 'k=v', {'X-Orig': 'o', 'Cookie': 'c=1'}, b'payload' if method in ('POST', 'PUT') else b'')
     env['verif.marker'] = marker = object()
     original = dict(env)
     ex = probe.call_wsgi(app, env)
-    case = {'reroute': how, 'status': status, 'method': method}
+    case = {'reroute': how, 'status': status, 'method': method, 'mode': mode, 'pattern': pattern, 'path': path}
+    sh.hit('reroute:mode-' + mode)
+    if not reaches:
+        sh.hit('reroute:not-reached-by-design')
+        return
     sh.case(dict(case, chunks=len(chunks), n=rng.randrange(1 << 30)), nontrivial=True, klass='reroute:' + how,
             sample=dict(case, got_status=ex.status_line))
     sh.hit('reroute:' + ('raised' if how != 'endpoint' else 'endpoint'))
